@@ -1,7 +1,7 @@
 (* Property C10: likelihood calls -- exact count, one batch per step, budget and support kept; return value of run(). *)
 From Coq Require Import List Arith.
 Import ListNotations.
-Require Import NV.Base NV.Shell2 NV.Shell2Inv NV.Shell2Run NV.Shell2Loop NV.Shell2LoopProofs NV.Shell2LoopEE.
+Require Import NV.Base NV.Shell2 NV.Shell2Inv NV.Shell2Support NV.Shell2Run NV.Shell2Loop NV.Shell2LoopProofs NV.Shell2LoopEE.
 
 Section P.
 Variable contains : bid -> pid -> bool.
@@ -18,6 +18,14 @@ Theorem C10_batch : forall s idx rounds vals s', step s (EvAddSamples idx rounds
 Proof. exact (Shell2Inv.C10_batch contains in_cube lik blob n_batch). Qed.
 Theorem C10_counter : forall s e s', step s e = Some s' -> n_like s' = n_like s + (if is_batch e then n_batch else 0).
 Proof. exact (step_nlike contains in_cube lik blob n_batch). Qed.
+
+(* support: the points a batch evaluates (the values recorded for the batch are the likelihood and blob of exactly these)
+   all passed the unit-cube test and the bound of a shell the sampler holds, and none of them was evaluated before *)
+Theorem C10_support : forall s idx rounds vals s', step s (EvAddSamples idx rounds vals) = Some s' ->
+  exists kept b, vals = map (fun p => (lik p, blob p)) kept /\ length kept = n_batch /\
+    Forall (fun p => in_cube p = true /\ contains b p = true /\ memb p (all_pts s ++ t_pts s) = false) kept /\
+    exists i sh, nth_error (shells s) i = Some sh /\ bnd sh = b.
+Proof. exact (batch_support contains in_cube lik blob n_batch). Qed.
 
 (* one run() call: one batch per loop iteration *)
 Theorem C10_count : forall c first its ft fn s s' ret, run_call c first its ft fn s = Some (s', ret) ->
@@ -56,6 +64,7 @@ Proof. exact (loop_fl_ee contains in_cube lik blob n_batch). Qed.
 End P.
 Print Assumptions C10_batch.
 Print Assumptions C10_counter.
+Print Assumptions C10_support.
 Print Assumptions C10_count.
 Print Assumptions C10_budget.
 Print Assumptions C10_success.
